@@ -41,21 +41,32 @@ Definition filter_name (nameBytes : bytes) : bytes :=
   let nm := if k <? blen nameBytes then firstn (N.to_nat k) nameBytes else [] in
   match nm with [] => nameBytes | _ => nm end.
 
-Fixpoint parse_filters (n : nat) (data : bytes) (version : N) (v1 : bool) (offset : N) : outcome (list rfilter) :=
+(* Switch for the repair notes/fixes/c06-pipeline-v2-filter-name.patch (property C06, Props/C06Reader.v):
+   [false] = the code before it: outside the version 1 layout no filter has a name-length field;
+   [true]  = the repaired code: a filter has a name-length field (and a name, unpadded outside the version 1 layout) when
+             the layout is version 1 or its identifier is >= 256 (user-defined filter), as a genuine version 2 message has it.
+   [parse_filters] / [dec_pipeline] are the variants of [pipeline_v2_names]; the ties of C11 / C07 read from the source tree
+   under test which variant it implements (tools/props/c06switch.py) and compare with dec_pipeline_gen of that variant. *)
+Definition pipeline_v2_names : bool := true.
+
+Fixpoint parse_filters_gen (repaired : bool) (n : nat) (data : bytes) (version : N) (v1 : bool) (offset : N)
+  : outcome (list rfilter) :=
   match n with
   | O => Ok []
   | S n' =>
       if blen data <? offset + 8 then Err else
       id <- rd_le data offset 2;;
       let offset := offset + 2 in
-      '(nameLength, offset) <- (if v1 then nl <- rd_le data offset 2;; Ok (nl, offset + 2) else Ok (0, offset));;
+      let hasName := v1 || (repaired && (256 <=? id)) in
+      '(nameLength, offset) <- (if hasName then nl <- rd_le data offset 2;; Ok (nl, offset + 2) else Ok (0, offset));;
       flags <- rd_le data offset 2;;
       let offset := offset + 2 in
       ncd <- rd_le data offset 2;;
       let offset := offset + 2 in
       '(name, offset) <-
-        (if v1 && (0 <? nameLength) then
-           let padded := if nameLength mod 8 =? 0 then nameLength else nameLength + (8 - nameLength mod 8) in   (* int *)
+        (if hasName && (0 <? nameLength) then
+           let padded := if v1 then (if nameLength mod 8 =? 0 then nameLength else nameLength + (8 - nameLength mod 8))
+                         else nameLength in
            if blen data <? offset + padded then Err else
            nb <- slice data offset (offset + nameLength);;
            Ok (filter_name nb, offset + padded)
@@ -69,11 +80,11 @@ Fixpoint parse_filters (n : nat) (data : bytes) (version : N) (v1 : bool) (offse
            let offset := if (version =? 1) && negb (dataSize mod 8 =? 0) then offset + (8 - dataSize mod 8) else offset in
            Ok (Some c, offset)
          else Ok (None, offset));;
-      rest <- parse_filters n' data version v1 offset;;
+      rest <- parse_filters_gen repaired n' data version v1 offset;;
       Ok ({| rf_id := id; rf_namelen := nameLength; rf_flags := flags; rf_ncd := ncd; rf_name := name; rf_cd := cd |} :: rest)
   end.
 
-Definition dec_pipeline (data : bytes) : outcome pipeline' :=
+Definition dec_pipeline_gen (repaired : bool) (data : bytes) : outcome pipeline' :=
   if blen data <? 2 then Err else
   version <- index data 0;;
   numFilters <- index data 1;;
@@ -81,8 +92,12 @@ Definition dec_pipeline (data : bytes) : outcome pipeline' :=
   let zero6 := match slice data 2 8 with Ok s => forallb (fun b => b =? 0) s | _ => false end in
   let v1 := (version =? 1) || ((version =? 2) && (0 <? numFilters) && (8 <=? blen data) && zero6) in
   let offset := if v1 then 8 else 2 in
-  fs <- parse_filters (N.to_nat numFilters) data version v1 offset;;
+  fs <- parse_filters_gen repaired (N.to_nat numFilters) data version v1 offset;;
   Ok {| pl_version := version; pl_nfilters := numFilters; pl_filters := fs |}.
+
+Definition parse_filters (n : nat) (data : bytes) (version : N) (v1 : bool) (offset : N) : outcome (list rfilter) :=
+  parse_filters_gen pipeline_v2_names n data version v1 offset.
+Definition dec_pipeline (data : bytes) : outcome pipeline' := dec_pipeline_gen pipeline_v2_names data.
 
 (* well-formed: 1..255 filters, 16-bit ids/flags, names without NUL of at most 65528 bytes, at most 65535
    32-bit client values *)
